@@ -230,7 +230,7 @@ func c04Classify(c *fw.Ctx, id string, ec excClass, pos string, kind string, see
 // ---- fault scripts ----
 
 var c04FaultKinds = []string{"move", "split", "merge", "offline", "opening", "too-busy", "call-queue", "throttle", "abort-exc", "reset",
-	"server-down", "meta-move", "app-exception", "unknown-table", "split-meta-lag", "meta-row-missing", "crash-reassign", "drop-table", "kill-after-probe"}
+	"server-down", "meta-move", "app-exception", "unknown-table", "split-meta-lag", "meta-row-missing", "crash-reassign", "drop-table", "kill-after-probe", "offline-in-meta"}
 
 type c04Script struct {
 	Seed   int64
@@ -413,6 +413,12 @@ func runC04Script(c *fw.Ctx, id string, sc c04Script) {
 			name := reg.Name
 			cl.SetOffline(name, true)
 			time.AfterFunc(time.Duration(20+r.Intn(150))*time.Millisecond, func() { cl.SetOffline(name, false) })
+		case "offline-in-meta":
+			// a region in transition: not served, and its hbase:meta row says offline
+			name := reg.Name
+			cl.SetOffline(name, true)
+			cl.SetMetaOffline(name, true)
+			time.AfterFunc(time.Duration(20+r.Intn(150))*time.Millisecond, func() { cl.SetMetaOffline(name, false); cl.SetOffline(name, false) })
 		case "opening", "too-busy", "call-queue", "throttle":
 			mu.Lock()
 			transient[string(reg.Name)] = 1 + r.Intn(3)
